@@ -596,7 +596,7 @@ func (c07) Eval(env *Env, c *Case) []Violation {
 				if n++; n > 8 {
 					break
 				}
-				judgeOut([]world.Fault{{AtOp: k, Kind: "fail", Errno: fr.Pick([]string{"EPIPE", "ENOSPC"}), Bytes: fr.Intn(o.N)}})
+				judgeOut([]world.Fault{{AtOp: k, Kind: "fail", Errno: fr.Pick([]string{"EPIPE", "ENOSPC", "EAGAIN", "EINTR"}), Bytes: fr.Intn(o.N)}})
 			}
 		}
 	}
